@@ -313,6 +313,7 @@ class Scenario:
             return all(S.threads['C%d' % ci]['done'] for ci in range(len(spec['clients'])))
         res = S.run(max_steps=max_steps, stop_when=None)
         self.result = res
+        self.blocked_at = {n: (t['label'], bool(t['timeout_ok'])) for n, t in S.threads.items() if not t['done']}
         self.n_effects = len(S.effects)
         self.received = [r.decode() for r in received()]
         self.connected_end = ses._connected
